@@ -23,9 +23,11 @@ MAX_ROOT_CAUSES = 6
 
 
 class Result:
-    __slots__ = ("violations", "nontrivial", "classes", "sample")
+    __slots__ = ("violations", "nontrivial", "classes", "sample", "abort")
 
-    def __init__(self, violations=None, nontrivial=False, classes=(), sample=None):
+    def __init__(self, violations=None, nontrivial=False, classes=(), sample=None, abort=False):
+        self.abort = abort   # the process is unusable after this case (e.g. a blocked loop thread):
+        #                      record the violation unshrunk and run no further case of the part
         self.violations = list(violations or [])  # [(signature, detail)]
         self.nontrivial = nontrivial
         self.classes = list(classes)
@@ -226,7 +228,7 @@ def _run_part(pid, part, tier, seed_value, known_sigs, n_examples, want_shrink):
             return case, _SKIPPED
         try:
             res = guarded(pid, part, case)
-            if any(s_.endswith(":case-did-not-terminate") for s_, _ in res.violations):
+            if res.abort or any(s_.endswith(":case-did-not-terminate") for s_, _ in res.violations):
                 # neither shrunk nor searched further: every further attempt costs the limit again
                 for s_, d_ in res.violations:
                     if s_ not in exclude:
